@@ -34,65 +34,87 @@ Section Assoc.
 End Assoc.
 
 (* ---------- the invariant ---------- *)
-Record good (fs : fsys) (c : tcache) (next : nat) : Prop := {
-  g_fs_lt : forall p f, alookup fs p = Some f -> f_ver f < next;
-  g_c_lt : forall n e, alookup c n = Some e -> e_ver e < next;
-  g_fc : forall p f n e, alookup fs p = Some f -> alookup c n = Some e -> f_ver f = e_ver e ->
+(* "key" = what the configured loader's up-to-date callback compares (stat version or mtime).
+   Keys in files and cache entries are below the counter, and equal keys mean equal contents. *)
+Record good (cfg : config) (fs : fsys) (c : tcache) (next : nat) : Prop := {
+  g_fs_lt : forall p f, alookup fs p = Some f -> file_key cfg f < next;
+  g_c_lt : forall n e, alookup c n = Some e -> entry_key cfg e < next;
+  g_fc : forall p f n e, alookup fs p = Some f -> alookup c n = Some e -> file_key cfg f = entry_key cfg e ->
            f_content f = e_content e;
-  g_ff : forall p f p' f', alookup fs p = Some f -> alookup fs p' = Some f' -> f_ver f = f_ver f' ->
+  g_ff : forall p f p' f', alookup fs p = Some f -> alookup fs p' = Some f' -> file_key cfg f = file_key cfg f' ->
            f_content f = f_content f' }.
 
-Lemma good_nil fs c next : good fs c next -> good fs [] next.
+(* with caching off the callbacks always say "stale": nothing needs to hold *)
+Definition inv (cfg : config) (fs : fsys) (c : tcache) (next : nat) : Prop :=
+  cache_enabled cfg = true -> good cfg fs c next.
+
+Lemma inv_nil cfg fs c next : inv cfg fs c next -> inv cfg fs [] next.
 Proof.
-  intros [H1 H2 H3 H4]. split; auto; cbn; intros; discriminate.
+  intros H Hc. destruct (H Hc) as [H1 H2 H3 H4]. split; auto; cbn; intros; discriminate.
 Qed.
 
-Lemma good0 : good [] [] 0.
-Proof. split; cbn; intros; discriminate. Qed.
+Lemma inv0 cfg : inv cfg [] [] 0.
+Proof. intros _. split; cbn; intros; discriminate. Qed.
+
+Lemma entry_key_of_file cfg (f : file) :
+  entry_key cfg {| e_content := f_content f; e_ver := f_ver f; e_mtime := f_mtime f |} = file_key cfg f.
+Proof. unfold entry_key, file_key. now destruct (root_dir cfg). Qed.
+
+Lemma load_spec cfg fs c name c' r : load cfg fs c name = (c', r) -> r = spec_get cfg fs name.
+Proof.
+  unfold load, spec_get. destruct (resolve cfg name) as [p|]; [|now intros [= <- <-]].
+  destruct (alookup fs p) as [f|]; now intros [= <- <-].
+Qed.
 
 Lemma load_good cfg fs c next name c' r :
-  good fs c next -> load cfg fs c name = (c', r) -> r = spec_get cfg fs name /\ good fs c' next.
+  good cfg fs c next -> load cfg fs c name = (c', r) -> good cfg fs c' next.
 Proof.
-  intros G. unfold load, spec_get. destruct (resolve cfg name) as [p|]; [|intros [= <- <-]; auto].
-  destruct (alookup fs p) as [f|] eqn:Ef; [|intros [= <- <-]; auto].
-  intros [= <- <-]. split; [reflexivity|]. destruct G as [H1 H2 H3 H4]. split; auto.
+  intros G. unfold load. destruct (resolve cfg name) as [p|]; [|now intros [= <- <-]].
+  destruct (alookup fs p) as [f|] eqn:Ef; [|now intros [= <- <-]].
+  intros [= <- <-]. destruct G as [H1 H2 H3 H4]. split; auto.
   - intros n e. rewrite alookup_aset. destruct (bytes_eqb name n); [|apply H2].
-    intros [= <-]. cbn. eauto.
+    intros [= <-]. rewrite entry_key_of_file. eauto.
   - intros p0 f0 n e Hf. rewrite alookup_aset. destruct (bytes_eqb name n); [|now apply (H3 p0 f0 n e)].
-    intros [= <-]. cbn. intros Hv. now apply (H4 p0 f0 p f).
+    intros [= <-]. rewrite entry_key_of_file. cbn [e_content]. intros Hv. now apply (H4 p0 f0 p f).
 Qed.
 
 Lemma get_template_good cfg fs c next name c' r :
-  arity_bug cfg = false -> good fs c next -> get_template cfg fs c name = (c', r) ->
-  r = spec_get cfg fs name /\ good fs c' next.
+  arity_bug cfg = false -> inv cfg fs c next -> get_template cfg fs c name = (c', r) ->
+  r = spec_get cfg fs name /\ inv cfg fs c' next.
 Proof.
-  intros Hb G. unfold get_template. destruct (alookup c name) as [e|] eqn:Ec; [|now apply load_good].
-  destruct (cache_enabled cfg).
-  - destruct (opt_nat_eqb (current_version cfg fs name) (e_ver e)) eqn:Ev; [|now apply load_good].
-    intros [= <- <-]. split; [|exact G]. unfold current_version in Ev. unfold spec_get.
+  intros Hb G. unfold get_template. destruct (alookup c name) as [e|] eqn:Ec.
+  2:{ intros H. split; [exact (load_spec _ _ _ _ _ _ H)|]. intros Hc. exact (load_good _ _ _ _ _ _ _ (G Hc) H). }
+  destruct (cache_enabled cfg) eqn:Ece.
+  - specialize (G Ece).
+    destruct (opt_nat_eqb (current_version cfg fs name) (entry_key cfg e)) eqn:Ev.
+    2:{ intros H. split; [exact (load_spec _ _ _ _ _ _ H)|]. intros _. exact (load_good _ _ _ _ _ _ _ G H). }
+    intros [= <- <-]. split; [|now intros _]. unfold current_version in Ev. unfold spec_get.
     destruct (resolve cfg name) as [p|]; [|discriminate].
     destruct (alookup fs p) as [f|] eqn:Ef; [|discriminate].
-    cbn in Ev. apply Nat.eqb_eq in Ev. f_equal. symmetry. exact (g_fc _ _ _ G p f name e Ef Ec Ev).
-  - rewrite Hb. destruct (root_dir cfg); now apply load_good.
+    cbn in Ev. apply Nat.eqb_eq in Ev. f_equal. symmetry. exact (g_fc _ _ _ _ G p f name e Ef Ec Ev).
+  - rewrite Hb. intros H. assert (H' : load cfg fs c name = (c', r)) by (destruct (root_dir cfg); exact H).
+    split; [exact (load_spec _ _ _ _ _ _ H')|]. intros Hc. congruence.
 Qed.
 
 (* ---------- rendering ---------- *)
+(* generic in the invariant I on caches (for a fixed file system): all that is needed is that
+   get_template returns what the cache-free specification says and keeps I *)
 Section ItemsProofs.
-  Variables (cfg : config) (fs : fsys) (x : ctx) (next : nat).
+  Variables (cfg : config) (fs : fsys) (x : ctx).
+  Variable I : tcache -> Prop.
+  Hypothesis Hget : forall c name c' r, I c -> get_template cfg fs c name = (c', r) ->
+                      r = spec_get cfg fs name /\ I c'.
   Variable rec : bytes -> content -> tcache -> tcache * res bytes.
   Variable rec_spec : bytes -> content -> res bytes.
-  Hypothesis Hbug : arity_bug cfg = false.
-  Hypothesis Hrec : forall name ct c c' r, good fs c next -> rec name ct c = (c', r) ->
-                      r = rec_spec name ct /\ good fs c' next.
+  Hypothesis Hrec : forall name ct c c' r, I c -> rec name ct c = (c', r) -> r = rec_spec name ct /\ I c'.
 
-  Lemma render_items_good parent its : forall c c' r, good fs c next ->
+  Lemma render_items_good parent its : forall c c' r, I c ->
     render_items cfg fs x rec parent its c = (c', r) ->
-    r = spec_items cfg fs x rec_spec parent its /\ good fs c' next.
+    r = spec_items cfg fs x rec_spec parent its /\ I c'.
   Proof.
     induction its as [|it rest IH]; intros c c' r G; cbn [render_items spec_items].
     - intros [= <- <-]. auto.
-    - (* first the item *)
-      assert (Hitem : forall c1 r1,
+    - assert (Hitem : forall c1 r1,
                 match it with
                 | Text s => (c, Ok s)
                 | Var k => (c, Ok (ctx_get x k))
@@ -119,19 +141,19 @@ Section ItemsProofs.
                                     | ENotFound => ENotFound | ETypeError => ETypeError | EFuel => EFuel
                                     end
                      | Import n => map_ok export (spec_get cfg fs (join_path cfg n parent))
-                     end /\ good fs c1 next).
+                     end /\ I c1).
       { intros c1 r1. destruct it as [s|k|n|n].
         - intros [= <- <-]. auto.
         - intros [= <- <-]. auto.
         - destruct (get_template cfg fs c (join_path cfg n parent)) as [c0 r0] eqn:Eg.
-          destruct (get_template_good _ _ _ _ _ _ _ Hbug G Eg) as [-> G0].
+          destruct (Hget _ _ _ _ G Eg) as [-> G0].
           destruct (spec_get cfg fs (join_path cfg n parent)) as [ct| | |].
           + intros Hr. exact (Hrec _ _ _ _ _ G0 Hr).
           + intros [= <- <-]. auto.
           + intros [= <- <-]. auto.
           + intros [= <- <-]. auto.
         - destruct (get_template cfg fs c (join_path cfg n parent)) as [c0 r0] eqn:Eg.
-          destruct (get_template_good _ _ _ _ _ _ _ Hbug G Eg) as [-> G0].
+          destruct (Hget _ _ _ _ G Eg) as [-> G0].
           destruct (spec_get cfg fs (join_path cfg n parent)) as [ct| | |]; intros [= <- <-]; auto. }
       match goal with |- (let '(c1, r1) := ?X in _) = _ -> _ => destruct X as [c1 r1] eqn:Ei end.
       destruct (Hitem c1 r1 eq_refl) as [Hr1 G1]. rewrite <- Hr1.
@@ -144,47 +166,100 @@ Section ItemsProofs.
   Qed.
 End ItemsProofs.
 
-Lemma render_tpl_good fuel cfg fs x next : arity_bug cfg = false ->
-  forall name ct c c' r, good fs c next -> render_tpl fuel cfg fs x name ct c = (c', r) ->
-  r = spec_tpl fuel cfg fs x name ct /\ good fs c' next.
+Section RenderProofs.
+  Variables (cfg : config) (fs : fsys).
+  Variable I : tcache -> Prop.
+  Hypothesis Hget : forall c name c' r, I c -> get_template cfg fs c name = (c', r) ->
+                      r = spec_get cfg fs name /\ I c'.
+
+  Lemma render_tpl_good fuel x : forall name ct c c' r, I c -> render_tpl fuel cfg fs x name ct c = (c', r) ->
+    r = spec_tpl fuel cfg fs x name ct /\ I c'.
+  Proof.
+    induction fuel as [|f IH]; intros name ct c c' r G; cbn [render_tpl spec_tpl].
+    - intros [= <- <-]. auto.
+    - apply (render_items_good cfg fs x I Hget); auto.
+  Qed.
+
+  Lemma render_good_gen fuel c name caller c' r : I c ->
+    render fuel cfg fs c name caller = (c', r) ->
+    r = spec_render fuel cfg fs name caller /\ I c'.
+  Proof.
+    intros G. unfold render, spec_render.
+    destruct (get_template cfg fs c name) as [c0 r0] eqn:Eg.
+    destruct (Hget _ _ _ _ G Eg) as [-> G0].
+    destruct (spec_get cfg fs name) as [ct| | |].
+    - now apply render_tpl_good.
+    - intros [= <- <-]. auto.
+    - intros [= <- <-]. auto.
+    - intros [= <- <-]. auto.
+  Qed.
+End RenderProofs.
+
+Lemma render_good fuel cfg fs next c name caller c' r : arity_bug cfg = false -> inv cfg fs c next ->
+  render fuel cfg fs c name caller = (c', r) ->
+  r = spec_render fuel cfg fs name caller /\ inv cfg fs c' next.
 Proof.
-  intros Hb. induction fuel as [|f IH]; intros name ct c c' r G; cbn [render_tpl spec_tpl].
-  - intros [= <- <-]. auto.
-  - apply render_items_good; auto.
+  intros Hb. apply (render_good_gen cfg fs (fun c => inv cfg fs c next)).
+  intros c0 n c1 r1. now apply get_template_good.
 Qed.
 
-Lemma render_good fuel cfg fs next c name caller c' r : arity_bug cfg = false -> good fs c next ->
-  render fuel cfg fs c name caller = (c', r) ->
-  r = spec_render fuel cfg fs name caller /\ good fs c' next.
+(* a cache filled during ONE render from an unchanging file system: every entry is the current file
+   of its name - enough for a fresh engine, whatever edits came before *)
+Definition synced (cfg : config) (fs : fsys) (c : tcache) : Prop :=
+  forall n e, alookup c n = Some e ->
+    exists p f, resolve cfg n = Some p /\ alookup fs p = Some f /\ e_content e = f_content f.
+
+Lemma get_template_synced cfg fs c name c' r : arity_bug cfg = false -> synced cfg fs c ->
+  get_template cfg fs c name = (c', r) -> r = spec_get cfg fs name /\ synced cfg fs c'.
 Proof.
-  intros Hb G. unfold render, spec_render.
-  destruct (get_template cfg fs c name) as [c0 r0] eqn:Eg.
-  destruct (get_template_good _ _ _ _ _ _ _ Hb G Eg) as [-> G0].
-  destruct (spec_get cfg fs name) as [ct| | |].
-  - now apply render_tpl_good.
-  - intros [= <- <-]. auto.
-  - intros [= <- <-]. auto.
-  - intros [= <- <-]. auto.
+  intros Hb G.
+  assert (Hload : forall c' r, load cfg fs c name = (c', r) -> r = spec_get cfg fs name /\ synced cfg fs c').
+  { intros c2 r2 H. split; [exact (load_spec _ _ _ _ _ _ H)|]. revert H. unfold load.
+    destruct (resolve cfg name) as [p|] eqn:Er; [|now intros [= <- <-]].
+    destruct (alookup fs p) as [f|] eqn:Ef; [|now intros [= <- <-]].
+    intros [= <- <-] n e. rewrite alookup_aset. destruct (bytes_eqb name n) eqn:En; [|apply G].
+    apply bytes_eqb_eq in En. subst n. intros [= <-]. exists p, f. auto. }
+  unfold get_template. destruct (alookup c name) as [e|] eqn:Ec; [|apply Hload].
+  destruct (cache_enabled cfg).
+  - destruct (opt_nat_eqb (current_version cfg fs name) (entry_key cfg e)); [|apply Hload].
+    intros [= <- <-]. split; [|exact G]. destruct (G _ _ Ec) as (p & f & Hr & Hf & He).
+    unfold spec_get. now rewrite Hr, Hf, He.
+  - rewrite Hb. destruct (root_dir cfg); apply Hload.
 Qed.
 
 (* ---------- histories ---------- *)
-Lemma do_edit_good st p new : good (s_fs st) (s_cache st) (s_next st) ->
-  good (s_fs (do_edit st p new)) (s_cache (do_edit st p new)) (s_next (do_edit st p new)).
+Definition step_ok (cfg : config) (s : step) : bool := negb (fsl_cached cfg) || negb (keeps_mtime s).
+
+Lemma history_ok_cons cfg s h : history_ok cfg (s :: h) = true -> step_ok cfg s = true /\ history_ok cfg h = true.
 Proof.
-  intros [H1 H2 H3 H4]. destruct new as [ct|]; cbn [do_edit s_fs s_cache s_next].
-  - split.
+  unfold history_ok, step_ok. destruct (fsl_cached cfg); cbn [negb orb forallb]; [|auto].
+  intros H. apply andb_true_iff in H. exact H.
+Qed.
+
+Lemma do_edit_inv cfg st p new k : step_ok cfg (Edit p new k) = true ->
+  inv cfg (s_fs st) (s_cache st) (s_next st) ->
+  inv cfg (s_fs (do_edit st p new k)) (s_cache (do_edit st p new k)) (s_next (do_edit st p new k)).
+Proof.
+  intros Hok G Hc. destruct (G Hc) as [H1 H2 H3 H4]. destruct new as [ct|]; cbn [do_edit s_fs s_cache s_next].
+  - (* the key of the new file is the fresh counter value *)
+    set (mt := match alookup (s_fs st) p with Some old => if k then f_mtime old else s_next st | None => s_next st end).
+    assert (Hkey : file_key cfg {| f_content := ct; f_ver := s_next st; f_mtime := mt |} = s_next st).
+    { unfold file_key. destruct (root_dir cfg) eqn:Er; [|reflexivity]. cbn [f_mtime]. unfold mt.
+      unfold step_ok, fsl_cached in Hok. rewrite Er, Hc in Hok. cbn in Hok. apply negb_true_iff in Hok. subst k.
+      now destruct (alookup (s_fs st) p). }
+    split.
     + intros q f. rewrite alookup_aset. destruct (bytes_eqb p q).
-      * intros [= <-]. cbn. lia.
+      * intros [= <-]. rewrite Hkey. lia.
       * intros Hq. specialize (H1 _ _ Hq). lia.
     + intros n e He. specialize (H2 _ _ He). lia.
     + intros q f n e. rewrite alookup_aset. destruct (bytes_eqb p q).
-      * intros [= <-] He. cbn. intros Hv. specialize (H2 _ _ He). lia.
+      * intros [= <-] He. rewrite Hkey. intros Hv. specialize (H2 _ _ He). lia.
       * apply H3.
     + intros q f q' f'. rewrite !alookup_aset.
       destruct (bytes_eqb p q); destruct (bytes_eqb p q').
       * intros [= <-] [= <-]. reflexivity.
-      * intros [= <-] Hq'. cbn. intros Hv. specialize (H1 _ _ Hq'). lia.
-      * intros Hq [= <-]. cbn. intros Hv. specialize (H1 _ _ Hq). lia.
+      * intros [= <-] Hq'. rewrite Hkey. intros Hv. specialize (H1 _ _ Hq'). lia.
+      * intros Hq [= <-]. rewrite Hkey. intros Hv. specialize (H1 _ _ Hq). lia.
       * apply H4.
   - split.
     + intros q f. rewrite alookup_aremove. destruct (bytes_eqb p q); [discriminate|apply H1].
@@ -197,39 +272,46 @@ Qed.
 Lemma run_spec_cache_irrel fuel cfg : forall h st st', s_fs st = s_fs st' -> s_next st = s_next st' ->
   run_spec fuel cfg st h = run_spec fuel cfg st' h.
 Proof.
-  induction h as [|[p new|name caller] h IH]; intros st st' Hf Hn; cbn [run_spec].
+  induction h as [|[p new k|name caller] h IH]; intros st st' Hf Hn; cbn [run_spec].
   - reflexivity.
-  - apply IH; destruct new; cbn [do_edit s_fs s_next]; congruence.
+  - apply IH; destruct new; cbn [do_edit s_fs s_next]; rewrite ?Hf, ?Hn; reflexivity.
   - rewrite Hf. f_equal. now apply IH.
 Qed.
 
-Lemma run_is_spec fuel cfg : arity_bug cfg = false -> forall h st,
-  good (s_fs st) (s_cache st) (s_next st) -> run fuel cfg st h = run_spec fuel cfg st h.
+Lemma run_is_spec fuel cfg : arity_bug cfg = false -> forall h st, history_ok cfg h = true ->
+  inv cfg (s_fs st) (s_cache st) (s_next st) -> run fuel cfg st h = run_spec fuel cfg st h.
 Proof.
-  intros Hb. induction h as [|[p new|name caller] h IH]; intros st G; cbn [run run_spec].
+  intros Hb. induction h as [|[p new k|name caller] h IH]; intros st Hh G; cbn [run run_spec].
   - reflexivity.
-  - apply IH. now apply do_edit_good.
-  - destruct (render fuel cfg (s_fs st) (s_cache st) name caller) as [c' out] eqn:Er.
+  - apply history_ok_cons in Hh as [Hs Hh]. apply IH; [exact Hh|]. now apply do_edit_inv.
+  - apply history_ok_cons in Hh as [_ Hh].
+    destruct (render fuel cfg (s_fs st) (s_cache st) name caller) as [c' out] eqn:Er.
     destruct (render_good _ _ _ _ _ _ _ _ _ Hb G Er) as [-> G'].
-    f_equal. rewrite (IH {| s_fs := s_fs st; s_cache := c'; s_next := s_next st |} G').
+    f_equal. rewrite (IH {| s_fs := s_fs st; s_cache := c'; s_next := s_next st |} Hh G').
     now apply run_spec_cache_irrel.
 Qed.
 
 Lemma run_fresh_is_spec fuel cfg : arity_bug cfg = false -> forall h st,
-  good (s_fs st) (s_cache st) (s_next st) -> run_fresh fuel cfg st h = run_spec fuel cfg st h.
+  run_fresh fuel cfg st h = run_spec fuel cfg st h.
 Proof.
-  intros Hb. induction h as [|[p new|name caller] h IH]; intros st G; cbn [run_fresh run_spec].
+  intros Hb. induction h as [|[p new k|name caller] h IH]; intros st; cbn [run_fresh run_spec].
   - reflexivity.
-  - apply IH. now apply do_edit_good.
+  - apply IH.
   - destruct (render fuel cfg (s_fs st) [] name caller) as [c' out] eqn:Er.
-    destruct (render_good _ _ _ _ _ _ _ _ _ Hb (good_nil _ _ _ G) Er) as [-> _].
-    cbn [snd]. f_equal. now apply IH.
+    assert (G : synced cfg (s_fs st) []) by (intros n e; discriminate).
+    destruct (render_good_gen cfg (s_fs st) (synced cfg (s_fs st))
+                (fun c0 n c1 r1 => get_template_synced cfg (s_fs st) c0 n c1 r1 Hb) fuel [] name caller c' out G Er) as [-> _].
+    cbn [snd]. f_equal. apply IH.
 Qed.
 
-Theorem edits_visible fuel cfg h : arity_bug cfg = false ->
+(* a fresh engine always renders the specification, whatever happened to the files before *)
+Theorem fresh_is_spec fuel cfg h : arity_bug cfg = false -> run_fresh fuel cfg est0 h = run_spec fuel cfg est0 h.
+Proof. intros Hb. now apply run_fresh_is_spec. Qed.
+
+Theorem edits_visible fuel cfg h : arity_bug cfg = false -> history_ok cfg h = true ->
   run fuel cfg est0 h = run_fresh fuel cfg est0 h.
 Proof.
-  intros Hb. rewrite run_is_spec, run_fresh_is_spec; auto; exact good0.
+  intros Hb Hh. rewrite run_is_spec, run_fresh_is_spec; auto. apply inv0.
 Qed.
 
 (* ---------- no TypeError ever ---------- *)
@@ -266,16 +348,16 @@ Qed.
 
 Lemma run_spec_no_te fuel cfg : forall h st, ~ In ETypeError (run_spec fuel cfg st h).
 Proof.
-  induction h as [|[p new|name caller] h IH]; intros st; cbn [run_spec]; [tauto|apply IH|].
+  induction h as [|[p new k|name caller] h IH]; intros st; cbn [run_spec]; [tauto|apply IH|].
   intros [H|H]; [now apply (spec_render_no_te fuel cfg (s_fs st) name caller)|now apply (IH st)].
 Qed.
 
-Theorem render_never_fails_from_cache fuel cfg h : arity_bug cfg = false ->
+Theorem render_never_fails_from_cache fuel cfg h : arity_bug cfg = false -> history_ok cfg h = true ->
   ~ In ETypeError (run fuel cfg est0 h) /\
   (forall k, nth_error (run fuel cfg est0 h) k = nth_error (run_fresh fuel cfg est0 h) k).
 Proof.
-  intros Hb. split.
-  - rewrite run_is_spec; auto using good0. apply run_spec_no_te.
+  intros Hb Hh. split.
+  - rewrite run_is_spec; auto using inv0. apply run_spec_no_te.
   - intros k. now rewrite edits_visible.
 Qed.
 
